@@ -9,6 +9,7 @@
   downwards is `C03_sweep_refines_sequential` (EpsieProps/C03.lean).
 -/
 import EpsieProofs.SweepApply
+import EpsieProps.C08
 namespace Epsie.C09
 open Chain
 
@@ -209,5 +210,34 @@ theorem C09_pinned_counterexample :
     ∃ c : PTChain, c.s = 3 ∧ c.lastclear = 5 ∧ c.iteration = 6 ∧ c.nsweeps = 1 ∧ c.nrows = 0 :=
   ⟨{ levels := [{ beta := 1, props := [], iteration := 6, lastclear := 5 }], betas := [1], s := 3 },
    rfl, rfl, rfl, rfl, rfl⟩
+
+/-! ### Non-vacuity: concrete states meeting the hypotheses above -/
+
+/-- The chain of `C08.ops0`: two levels, swap interval 1, one iteration in which the cold level
+    rejected, the hot level accepted a better point, and the sweep exchanged them. -/
+def pt1 : PTChain := PTChain.runOps (PTChain.fresh [1, 1/2] 1 [C08.cfg0]) C08.ops0
+
+example : pt1.rowsView = [some { idx := [1, 0], ars := [.one] }] ∧ pt1.nsweeps = 1 ∧
+    pt1.levels.map (·.current) =
+      [some ⟨[.num 0], 0, 0, []⟩, some ⟨[.num 1], -1, 0, []⟩] := by decide +kernel
+
+/-- `hlast` of `C09_whole_state_permuted` and the hypotheses of `C09_rows_stored_in_order`. -/
+example : (∀ l ∈ pt1.levels, 0 < l.len ∧ ∃ r, rowAt l.scratch (l.len - 1) = some r) ∧
+    0 < pt1.s ∧ pt1.iteration % pt1.s = 0 ∧ pt1.lastclear < pt1.iteration := by
+  have h : pt1.levels.all (fun l => decide (0 < l.len) && (rowAt l.scratch (l.len - 1)).isSome) = true ∧
+      0 < pt1.s ∧ pt1.iteration % pt1.s = 0 ∧ pt1.lastclear < pt1.iteration := by decide +kernel
+  refine ⟨?_, h.2⟩
+  intro l hl
+  have := List.all_eq_true.mp h.1 l hl
+  simp only [Bool.and_eq_true, decide_eq_true_eq] at this
+  exact ⟨this.1, Option.isSome_iff_exists.mp this.2⟩
+
+/-- A three-level sweep in which a uniform decides: the hottest state descends two levels in
+    one sweep, each colder state moves up exactly one; with a larger uniform the second
+    exchange is refused. -/
+example : Swap.sweep [1, 1/2, 1/4] [0, -3, -1] [-1] =
+      some ({ idx := [2, 0, 1], ars := [.exp (-1/2), .one] }, []) ∧
+    Swap.sweep [1, 1/2, 1/4] [0, -3, -1] [-1/4] =
+      some ({ idx := [0, 2, 1], ars := [.exp (-1/2), .one] }, []) := by decide +kernel
 
 end Epsie.C09
